@@ -179,6 +179,16 @@ type BrokerPlan struct {
 	Faults        []BrokerFault  `json:"faults,omitempty"`
 	NoRoute       bool           `json:"no_route,omitempty"` // do not route client publishes to subscribers
 	AnswerDelayMs int64          `json:"answer_delay_ms,omitempty"`
+	// Retained messages: sent (retain=1) to a session whenever it subscribes with a matching filter;
+	// Early ones before the SUBACK (MQTT 3.1.1 §3.8.4 allows PUBLISH before SUBACK).
+	Retained []BrokerRetained `json:"retained,omitempty"`
+}
+
+type BrokerRetained struct {
+	Topic   string `json:"topic"`
+	Payload []byte `json:"payload,omitempty"`
+	QoS     uint8  `json:"qos,omitempty"`
+	Early   bool   `json:"early,omitempty"`
 }
 
 // SGWReaction: what the scripted gateway does when it receives a packet of class On.
